@@ -709,7 +709,7 @@ def rejected_sweep(ctx, drv, kname, share=1.0):
             for pre in pres:
                 if how == "setdefault" and pre:
                     pre = pre[:-1] + [["set", key, good], ["del", key]]
-                drv.one(kind, pre + [last, ["in", key]], False)
+                drv.one(kind, pre + [last], False)
                 if len(drv.reported) >= 8:
                     return
 
